@@ -1343,7 +1343,20 @@ void save_option_file(FILE *pfile, bool with_doc, bool minimal)
 
          if (option->type() == OT_STRING)
          {
-            fprintf(pfile, "\"%s\"", val.c_str());
+            // escape what split_args() treats specially inside a quoted string
+            std::string escaped;
+
+            for (const char ch : val)
+            {
+               if (  ch == '\\'
+                  || ch == '"')
+               {
+                  escaped += '\\';
+               }
+               escaped += ch;
+            }
+
+            fprintf(pfile, "\"%s\"", escaped.c_str());
          }
          else
          {
